@@ -45,11 +45,31 @@ Merged == {[m |-> S, merged |-> TRUE] : S \in {{1, 3}, {1, 2, 3}}}
 Units == Pools \cup Merged
 PloidyOf(u) == 2 * Cardinality(u.m)
 
+(* ---- where the alignments are stored ------------------------------------------- *)
+(* An alignment file holds reads tagged (through their read group) with a sample     *)
+(* name; one file may hold several samples.  A layout says in which file the reads   *)
+(* of each base sample live: "sep" one file per sample, "one" all base samples in    *)
+(* one multi-sample file.  A pool is a list of (member, file) pairs; the reads of a  *)
+(* pair are the reads OF THAT MEMBER in that file.  A merged sample always has its   *)
+(* own file (its alignments are the union of the alignments of its members).         *)
+Layouts == {"sep", "one"}
+FileOf(i, lay) == IF lay = "one" THEN 0 ELSE i
+FileBag(f, lay) == [i \in Base |-> [h \in KindSet |-> IF FileOf(i, lay) = f THEN BaseBag(i)[h] ELSE 0]]
+Extract(f, i, lay) == FileBag(f, lay)[i]                  \* the reads of sample i in file f
+MaxOf(S) == CHOOSE x \in S : \A y \in S : y <= x
+
 (* the reads a unit is made of: members' reads concatenated, THEN de-duplicated *)
-PooledBag(u) ==
-  IF Mutation = "dedup_before_pooling" /\ ~u.merged
-  THEN [h \in KindSet |-> Cardinality({i \in u.m : BaseBag(i)[h] > 0})]
-  ELSE [h \in KindSet |-> SumF([i \in u.m |-> BaseBag(i)[h]], u.m)]
+PooledBag(u, lay) ==
+  IF u.merged
+  THEN [h \in KindSet |-> SumF([i \in u.m |-> BaseBag(i)[h]], u.m)]
+  ELSE IF Mutation = "dedup_before_pooling"
+  THEN [h \in KindSet |-> Cardinality({i \in u.m : Extract(FileOf(i, lay), i, lay)[h] > 0})]
+  ELSE IF Mutation = "scan_each_file_once"
+  THEN \* the (member, file) pairs collapsed into file -> member: the last member of a file wins
+       LET files == {FileOf(i, lay) : i \in u.m}
+           member == [f \in files |-> MaxOf({i \in u.m : FileOf(i, lay) = f})]
+       IN  [h \in KindSet |-> SumF([f \in files |-> Extract(f, member[f], lay)[h]], files)]
+  ELSE [h \in KindSet |-> SumF([i \in u.m |-> Extract(FileOf(i, lay), i, lay)[h]], u.m)]
 
 (* runs: sequences of distinct units; two units of a run never have equal content *)
 SameContent(u, v) == u.m = v.m
@@ -63,6 +83,7 @@ Distinct(s) == \A i, j \in 1..Len(s) : i # j => ~SameContent(s[i], s[j])
 Runs == {s \in SeqsOver(Units, MaxLen) : Len(s) >= 1 /\ Distinct(s)}
 ContentSubset(a, b) == \A i \in 1..Len(a) : \E j \in 1..Len(b) : SameContent(a[i], b[j])
 
+NarrowMax == 1     \* (binding demonstration only) the largest number the narrow type holds
 Seed == <<"seed">>
 Adv(r, bag) == <<"adv", r, bag>>                \* the fit consumed randomness
 
@@ -73,23 +94,25 @@ ModeOf(post) == LET pr == Present(post.bag) IN [i \in 1..post.ploidy |-> pr[((i 
 SupportedOf(post) == {h \in KindSet : post.bag[h] >= 3}
 DosageOf(post, h) == Cardinality({i \in 1..post.ploidy : ModeOf(post)[i] = h})
 
-VARIABLES prog, cfgA, cfgB, which, pc, ix, rng, reads, posts, haps, cols, outA, outB
-vars == <<prog, cfgA, cfgB, which, pc, ix, rng, reads, posts, haps, cols, outA, outB>>
+VARIABLES prog, cfgA, cfgB, layA, layB, which, pc, ix, rng, reads, posts, haps, cols, outA, outB
+vars == <<prog, cfgA, cfgB, layA, layB, which, pc, ix, rng, reads, posts, haps, cols, outA, outB>>
 
 Cfg == IF which = "A" THEN cfgA ELSE cfgB
+Lay == IF which = "A" THEN layA ELSE layB
 
 Init ==
   /\ prog \in {"call", "assemble"}
   /\ \E a \in Runs : \E b \in Runs : ContentSubset(a, b) /\ cfgA = a /\ cfgB = b
+  /\ layA \in Layouts /\ layB \in Layouts
   /\ which = "A" /\ pc = "encode" /\ ix = 1
   /\ rng = Seed /\ reads = <<>> /\ posts = <<>> /\ haps = <<>> /\ cols = <<>>
   /\ outA = <<>> /\ outB = <<>>
 
 Encode ==
   /\ which \in {"A", "B"} /\ pc = "encode"
-  /\ reads' = PooledBag(Cfg[ix])
+  /\ reads' = PooledBag(Cfg[ix], Lay)
   /\ pc' = "call"
-  /\ UNCHANGED <<prog, cfgA, cfgB, which, ix, rng, posts, haps, cols, outA, outB>>
+  /\ UNCHANGED <<prog, cfgA, cfgB, layA, layB, which, ix, rng, posts, haps, cols, outA, outB>>
 
 Call ==
   /\ which \in {"A", "B"} /\ pc = "call"
@@ -98,7 +121,7 @@ Call ==
      IN  /\ posts' = Append(posts, post)
          /\ rng' = Adv(r0, reads)
   /\ IF ix < Len(Cfg) THEN ix' = ix + 1 /\ pc' = "encode" ELSE ix' = 1 /\ pc' = "union"
-  /\ UNCHANGED <<prog, cfgA, cfgB, which, reads, haps, cols, outA, outB>>
+  /\ UNCHANGED <<prog, cfgA, cfgB, layA, layB, which, reads, haps, cols, outA, outB>>
 
 (* population haplotype list: reference first, then by summed dosage (ties: first seen) *)
 RECURSIVE OrderBy(_, _)
@@ -114,15 +137,23 @@ UnionHaps ==
                       called == UNION {SupportedOf(posts[i]) : i \in from}
                   IN  OrderBy(called, [h \in called |-> SumF([i \in 1..Len(posts) |-> DosageOf(posts[i], h)], 1..Len(posts))])
   /\ pc' = "label"
-  /\ UNCHANGED <<prog, cfgA, cfgB, which, ix, rng, reads, posts, cols, outA, outB>>
+  /\ UNCHANGED <<prog, cfgA, cfgB, layA, layB, which, ix, rng, reads, posts, cols, outA, outB>>
 
+(* labels: a haplotype of the list is written as its allele NUMBER (its position in the *)
+(* list, which is built from ALL units of the run) and read back as the sequence with    *)
+(* that number; "." (number -1) for haplotypes that are not in the list.  The number is  *)
+(* an unbounded integer: a list of any length must be addressable.                       *)
 InList(h, list) == \E i \in 1..Len(list) : list[i] = h
+NumberOf(h, list) == IF InList(h, list) THEN CHOOSE i \in 1..Len(list) : list[i] = h ELSE 0 - 1
+Stored(n) ==       \* the wrong definition: a number kept in a type that holds NarrowMax at most
+  IF Mutation = "narrow_allele_numbers" /\ n > NarrowMax THEN n - 2 * (NarrowMax + 1) ELSE n
+SeqOfNumber(n, list) == IF n < 1 THEN "." ELSE list[n]
 Label ==
   /\ which \in {"A", "B"} /\ pc = "label"
   /\ LET post == posts[ix]
          mode == ModeOf(post)
          col == [unit |-> Cfg[ix], stats |-> post,
-                 seqs |-> [i \in 1..Len(mode) |-> IF InList(mode[i], haps) THEN mode[i] ELSE "."]]
+                 seqs |-> [i \in 1..Len(mode) |-> SeqOfNumber(Stored(NumberOf(mode[i], haps)), haps)]]
          newcols == Append(cols, col)
      IN  IF ix < Len(Cfg)
          THEN /\ cols' = newcols /\ ix' = ix + 1
@@ -134,7 +165,7 @@ Label ==
               ELSE /\ outB' = [cols |-> newcols, alts |-> haps] /\ outA' = outA
                    /\ which' = "done" /\ pc' = "end" /\ ix' = 1 /\ cols' = <<>>
                    /\ UNCHANGED <<rng, reads, posts, haps>>
-  /\ UNCHANGED <<prog, cfgA, cfgB>>
+  /\ UNCHANGED <<prog, cfgA, cfgB, layA, layB>>
 
 Next == Encode \/ Call \/ UnionHaps \/ Label
 Spec == Init /\ [][Next]_vars
@@ -170,11 +201,24 @@ OrderPermutesColumns ==
     /\ {outA.alts[i] : i \in 1..Len(outA.alts)} = {outB.alts[i] : i \in 1..Len(outB.alts)}
     /\ \A i \in 1..Len(outA.cols) : \A j \in 1..Len(outB.cols) :
          SameContent(outA.cols[i].unit, outB.cols[j].unit) => SameSeqBag(outA.cols[i].seqs, outB.cols[j].seqs)
+(* where the alignments are stored does not matter: the same unit read from one file per  *)
+(* sample or from one multi-sample file gives the same column (any program)                *)
+StorageIndependent ==
+  (Done /\ layA # layB) =>
+    \A i \in 1..Len(outA.cols) : \A j \in 1..Len(outB.cols) :
+      (SameContent(outA.cols[i].unit, outB.cols[j].unit) /\ outA.cols[i].unit.merged = outB.cols[j].unit.merged) =>
+        outA.cols[i].stats = outB.cols[j].stats
+(* the law behind both: the reads of a unit are the bag union of its members' reads,      *)
+(* whatever the layout                                                                     *)
+UnitReadsAreUnion ==
+  (which = "A" /\ pc = "encode" /\ ix = 1) =>
+  \A u \in Units : \A lay \in Layouts :
+    PooledBag(u, lay) = [h \in KindSet |-> SumF([i \in u.m |-> BaseBag(i)[h]], u.m)]
 TypeOK == which \in {"A", "B", "done"} /\ pc \in {"encode", "call", "union", "label", "end"}
 
 UnitJson(u) == [m |-> SelectSeq(<<1, 2, 3>>, LAMBDA i : i \in u.m), merged |-> u.merged]
 Dump ==
   (Done /\ prog = "call") =>
-    PrintT(<<"@@J", ToJson([a |-> [i \in 1..Len(cfgA) |-> UnitJson(cfgA[i])],
-                            b |-> [i \in 1..Len(cfgB) |-> UnitJson(cfgB[i])]])>>)
+    PrintT(<<"@@J", ToJson([a |-> [i \in 1..Len(cfgA) |-> UnitJson(cfgA[i])], la |-> layA,
+                            b |-> [i \in 1..Len(cfgB) |-> UnitJson(cfgB[i])], lb |-> layB])>>)
 =============================================================================
